@@ -12,7 +12,8 @@ RULE = ("histories = generated client programs of 3-16 operations over {start, e
         "and 0-2 enqueuer threads against the real ThreadPool (max 1..3, min 0..max, idle timeout 5-50 ms, mostly "
         "unbounded queue), each ended by restart-if-stopped, a drain under the bounded-progress rule, a growth probe, "
         "a final join and stop; schedules = OS interleavings with a 10 us switch interval, random line-level yields "
-        "(p in .05/.2/.5) and a stall sweep parking one thread role at one source line of the pool module per run. "
+        "(p in .05/.2/.5), a stall sweep parking one thread role at one source line of the pool module per run, and an "
+        "instruction-level stall sweep parking it at one bytecode instruction (inside a source line). "
         "distinct = distinct interleaving signatures (sequence of (thread role, event kind) in the boundary log); "
         "non-trivial = at least one task body executed.")
 ASSUMPTIONS = [
@@ -32,7 +33,7 @@ LEVEL_NOTE = ("Trusted: the checker in vf/poolmon.py; the `queue` name of the po
 
 def run(ctx):
     poolcheck.run(ctx, "C09", "c09", n_hist=ctx.pick(170, 3500), n_stall=ctx.pick(45, 10 ** 6),
-                  stall_programs=ctx.pick(1, 6))
+                  stall_programs=ctx.pick(1, 6), n_istall=ctx.pick(40, 10 ** 6))
 
 
 def finalize(m, tier):
